@@ -778,6 +778,7 @@ def main(run, only_cases=None):
     run.require("messages_with_rfc2047_content_type_name_only", c.get("messages_with_name_rfc2047_name_attachment_names", 0), run.n(40, 600))
     run.require("messages_with_attachments_below_another_container", c.get("messages_with_attachments_below_another_container", 0), run.n(60, 900))
     run.require("container_kinds_seen", len([k for k in c if k.startswith("container_")]), 5)
+    run.require("messages_with_two_attachments_of_one_name", c.get("messages_with_two_attachments_of_one_name", 0), run.n(40, 600))
     run.require("messages_without_message_id", c.get("messages_without_message_id", 0), run.n(60, 900))
     run.require("mailboxes_with_two_messages_without_message_id", c.get("mailboxes_with_two_messages_without_message_id", 0), run.n(8, 100))
     run.require("messages_filed_twice_in_one_mailbox", c.get("messages_filed_twice_in_one_mailbox", 0), run.n(15, 250))
@@ -956,6 +957,8 @@ def _count_message(run, spec, truth, r):
         if f.startswith("att:mismatch:"):
             run.count("attachments_with_other_type_than_their_name_says")
             run.count("mismatch_" + f[13:])
+        elif f == "att:same-name-twice":
+            run.count("messages_with_two_attachments_of_one_name")
         elif f == "mid:absent":
             run.count("messages_without_message_id")
         elif f == "mbox:filed-twice":
